@@ -227,6 +227,21 @@ fn deliver_corrupted(cx: &mut Cx, s: u64, f: Presentation, l: usize, issuer: Nod
     // (3) disclosed data: every single-element fault of the message list; index corruption;
     //     consistent edits of (index, message) pairs
     let r = lnorm(&f.dmsgs).len();
+    // Mallory: ENCODING CONFUSION -- a disclosed message replaced by an encoding of its own scalar
+    if r > 0 {
+        let i = (cx.run_index as usize) % r;
+        if let Ok(sc) = rm::messages_to_scalars(f.suite, &[lnorm(&f.dmsgs)[i].clone()], &rm::api_id(f.suite, false)) {
+            let b = sc[0].to_be_bytes();
+            for (name, enc) in [("scalar_octets", b.to_vec()), ("scalar_serde_json", format!("{{\"value\":\"{}\"}}", hex::encode(b)).into_bytes()), ("scalar_hex_text", hex::encode(b).into_bytes())] {
+                let mut g = f.clone();
+                let mut v = g.dmsgs.take().unwrap_or_default();
+                if v[i] == enc { continue; }
+                v[i] = enc;
+                g.dmsgs = Some(v);
+                deliver(cx, verifier, g, format!("forged:disclosed_message_as_{name}"), ideal.clone());
+            }
+        }
+    }
     for lf in ListFault::pick(&mut cx.ch, r, 80, 20) {
         let mut g = f.clone();
         let mut v = g.dmsgs.take().unwrap_or_default();
@@ -368,6 +383,10 @@ fn mallory(cx: &mut Cx, honest: &Presentation, l_honest: usize, verifier: NodeId
             // pairing equation refuses it
             ("aD-bD-kBv", bv * k * k, bv * k * (k + Scalar::ONE), bv * k, Some(k)),
         ];
+        // Abar, Bbar of the HONEST proof (they satisfy the pairing), D = Bv of the claimed statement,
+        // e^ = 0: a transcript that is consistent for a verifier whose T1 collapses when a response is
+        // zero (T1 taken as the identity, T2 = Bv*t + sum H_j m^_j, r3^ = t - c)
+        let fams = { let mut v = fams; if let Ok(hp) = rm::octets_to_proof(&honest.proof, false) { v.push(("honestAbar-honestBbar-Bv-zero_e^", hp.abar, hp.bbar, bv, None)); } v };
         for (name, abar, bbar, d, cancel) in fams {
             let smallorder = name.starts_with("smallorder");
             let e_cap = if name.starts_with("id-id") { rnd(&mut x) } else { Scalar::ZERO };
@@ -381,12 +400,15 @@ fn mallory(cx: &mut Cx, honest: &Presentation, l_honest: usize, verifier: NodeId
             let mut t2_free = G1Projective::identity();
             for (kk, j) in und.iter().enumerate() { t2_free += gens[1 + j] * m_cap[kk]; }
             // small-order family: Bbar*c + Abar*e^ = S*(c + e^) vanishes for e^ = -c
+            let zero_e = name.ends_with("zero_e^");
+            let t_zero = rnd(&mut x);
             let multiples = name == "aD-bD-kBv"; // alpha = k, beta = k + 1
             let rho = rnd(&mut x);
-            let t1_free = if multiples { d * rho } else if smallorder { d * r1_cap } else { abar * e_cap + d * r1_cap }; // + Bbar*c, zero when Bbar is the identity
+            if zero_e { t2_free += bv * t_zero; }
+            let t1_free = if zero_e { id } else if multiples { d * rho } else if smallorder { d * r1_cap } else { abar * e_cap + d * r1_cap }; // + Bbar*c, zero when Bbar is the identity
             // fixed point: c = H(.., T1(c), T2(c), ..) has no dependence on c in the cancelling families
             let c = match rm::challenge(suite, &api, &disclosed, &abar, &bbar, &d, &t1_free, &t2_free, &domain, &ph) { Ok(c) => c, Err(_) => continue };
-            let r3_cap = match cancel { Some(kv) => -(c * kv.invert().unwrap()), None => -c };
+            let r3_cap = if zero_e { t_zero - c } else { match cancel { Some(kv) => -(c * kv.invert().unwrap()), None => -c } };
             // S has order 3: S*c + S*e^ vanishes iff the canonical integers satisfy c + e^ = 0 mod 3
             let e_cap = if smallorder {
                 let mut e = rnd(&mut x);
@@ -394,7 +416,7 @@ fn mallory(cx: &mut Cx, honest: &Presentation, l_honest: usize, verifier: NodeId
                 e
             } else { e_cap };
             // T1 = Bbar*c + Abar*e^ + D*r1^ = D*(beta*c + alpha*e^ + r1^): r1^ = rho - alpha*e^ - beta*c
-            let (e_cap, r1_cap) = if multiples { let e = rnd(&mut x); (e, rho - k * e - (k + Scalar::ONE) * c) } else { (e_cap, r1_cap) };
+            let (e_cap, r1_cap) = if zero_e { (Scalar::ZERO, r1_cap) } else if multiples { let e = rnd(&mut x); (e, rho - k * e - (k + Scalar::ONE) * c) } else { (e_cap, r1_cap) };
             let p = rm::Proof { abar, bbar, d, e_cap, r1_cap, r3_cap, m_cap, c };
             let bytes = p.to_bytes();
             let base = Presentation { suite, pk: honest.pk.clone(), proof: bytes.clone(), header: honest.header.clone(), ph: honest.ph.clone(), dmsgs: Some(dmsgs.clone()), didx: Some(didx.clone()), json: None, blind_l: None };
